@@ -10,11 +10,13 @@ compares model and implementation (bytes by FNV-1a hash and length, counts, call
 Core only.
 -/
 import Biogo.Drive.SeqioWire
+import Biogo.Model.SeqFormat
+import Biogo.Generated.Alphabets
 
 namespace Biogo.Drive.C01
 open Biogo.Wire Biogo.Go.Bytes Biogo.Drive.Seqio Biogo.Spec.Seqio
 
-def ops : List String := ["fa", "fq"]
+def ops : List String := ["fa", "fq", "fva", "fvq"]
 
 /-- statement of C01 on the implementation's observation; `none` = holds -/
 def statement (wf : Bool) (expected : List String) (obs : String) : Option String :=
@@ -74,6 +76,41 @@ def handleFq (qid : Bool) (typ : String) (enc : Biogo.Fastq.Encoding) (alpha : S
   let model := s!"w {showNats ns} {showNats ns} {hex16 (fnv1a bytes)} {bytes.length} r {fastqCalls calls}"
   verdict wf expected model obs tags
 
+/-- the letters a `Format` verb prints: for a QSeq each letter goes through `seq.AmbigFilter`
+    with the default threshold 3 and the alphabet's gap / ambiguous letters -/
+def shownLetters (typ alpha : String) (l q : Bytes) : Bytes :=
+  if typ == "s" then l
+  else match Biogo.Generated.builtins.find? (·.name == alpha) with
+    | some d => (l.zip (q ++ List.replicate (l.length - q.length) 0)).map fun (x, y) =>
+        Biogo.SeqFormat.ambigFilter d.gap d.ambiguous 3 x y
+    | none => l
+
+def optNat (s : String) : Option (Option Nat) :=
+  if s == "-" then some none else (parseNat s).map some
+
+/-- `%a` / `%q` of one sequence, read back: compared with the model only (the verbs are not
+    part of the statement of C01) -/
+def handleFormat (fasta : Bool) (w prec : Option Nat) (plus : Bool) (typ : String) (enc : Biogo.Fastq.Encoding)
+    (alpha : String) (r : Bytes × Bytes × Bytes × Bytes) (obs : String) : Verdict :=
+  let (n, d, l, q) := r
+  let shown := shownLetters typ alpha l q
+  let tags := [if fasta then "format-a" else "format-q", "typ-" ++ typ, alpha, lenTag l.length]
+    ++ (if shown != l then ["quality-filtered"] else []) ++ (if prec.isSome then ["precision"] else [])
+  let out : Except Biogo.Go.Bytes.Panic Bytes :=
+    if fasta then Biogo.SeqFormat.formatA w prec n d shown
+    else
+      let quals := if typ == "s" then List.replicate l.length 73
+                   else (q ++ List.replicate (l.length - q.length) 0).map (Biogo.Fastq.encode qtables enc)
+      .ok (Biogo.SeqFormat.formatQ plus prec n d shown quals)
+  let model := match out with
+    | .error p => "panic:" ++ p.code
+    | .ok bytes =>
+      let calls := if fasta then fastaCalls (Biogo.Fasta.readAll fastaCfg bytes)
+                   else fastqCalls (Biogo.Fastq.readAll (fastqCfg typ enc) (eofWithData bytes) bytes)
+      s!"f {hex16 (fnv1a bytes)} {bytes.length} r {calls}"
+  if obs == "norec" then { status := "skip", tags := tags }
+  else if model == obs then ok tags else diff (model.take 600).toString tags
+
 def handle (line : String) : String :=
   let (inp, obs) := splitCase line
   let v : Verdict :=
@@ -86,6 +123,14 @@ def handle (line : String) : String :=
       match parseBool qid, encOfString enc, parseRecs rest with
       | some qid, some enc, some rs => handleFq qid typ enc alpha rs obs
       | _, _, _ => bad "fq"
+    | "fva" :: w :: prec :: typ :: alpha :: rest =>
+      match optNat w, optNat prec, parseRecs rest with
+      | some w, some prec, some [r] => handleFormat true w prec false typ .sanger alpha r obs
+      | _, _, _ => if obs == "norec" then { status := "skip" } else bad "fva"
+    | "fvq" :: plus :: prec :: typ :: enc :: alpha :: rest =>
+      match parseBool plus, optNat prec, encOfString enc, parseRecs rest with
+      | some plus, some prec, some enc, some [r] => handleFormat false none prec plus typ enc alpha r obs
+      | _, _, _, _ => if obs == "norec" then { status := "skip" } else bad "fvq"
     | _ => bad "unknown-op"
   v.render
 
